@@ -1103,10 +1103,16 @@ struct static_array<T, ::boost::multi::dimensionality_type{0}, Alloc>  // NOLINT
 	#pragma clang diagnostic pop
 	#endif
 
-	// exchanges the two elements; both arrays keep their storage and their allocators (the inherited swap is for temporaries of views)
-	void swap(static_array& other) noexcept(std::is_nothrow_swappable_v<typename static_array::element_type>) {
+	// propagating allocators are exchanged together with the blocks they produced; otherwise the two elements are exchanged and
+	// both arrays keep their storage and their allocators (the inherited swap is for temporaries of views)
+	void swap(static_array& other) noexcept(multi::allocator_traits<allocator_type>::propagate_on_container_swap::value || std::is_nothrow_swappable_v<typename static_array::element_type>) {
 		using std::swap;
-		swap(*(this->base_), *(other.base_));
+		if constexpr(multi::allocator_traits<allocator_type>::propagate_on_container_swap::value) {
+			swap(this->alloc(), other.alloc());
+			swap(this->base_, other.base_);
+		} else {
+			swap(*(this->base_), *(other.base_));
+		}
 	}
 
 	template<class TT, class... As,
@@ -1135,6 +1141,8 @@ struct array<T, 0, Alloc> : static_array<T, 0, Alloc> {
 
 
 	using static_array<T, 0, Alloc>::operator=;
+
+	friend void swap(array& self, array& other) noexcept(noexcept(self.swap(other))) { self.swap(other); }  // found by unqualified swap(a, b), like array<T, D>'s
 
 	#if !defined(__NVCOMPILER) || (__NVCOMPILER_MAJOR__ > 22 || (__NVCOMPILER_MAJOR__ == 22 && __NVCOMPILER_MINOR__ > 5))  // bug in nvcc 22.5: error: "operator=" has already been declared in the current scope
 	template<class TT, class... Args>
